@@ -13,6 +13,11 @@ def rapid(pkg, test, q, t, qs=1, ts=16, replay=None, timeout=900, ttimeout=7200,
     d.update(kw)
     return d
 
+def fuzz(pkg, test, seconds, parallel=8):
+    """Native go fuzzing, thorough tier only ('checks' = seconds of fuzzing)."""
+    return dict(pkg=pkg, test=test, kind="fuzz", replay=None, thorough_only=True,
+                quick=dict(checks=0, shards=0), thorough=dict(checks=seconds, shards=1, timeout=seconds + 600, parallel=parallel))
+
 def loop(pkg, test, qs=4, ts=16, replay=None, timeout=900, ttimeout=7200, q=1, t=1, env=None):
     d = dict(pkg=pkg, test=test, kind="loop", replay=replay,
              quick=dict(checks=q, shards=qs, timeout=timeout), thorough=dict(checks=t, shards=ts, timeout=ttimeout))
@@ -31,6 +36,13 @@ CHECKS = {
     "C14": dict(tests=[
         rapid("pure", "TestC14", 24000, 2400000, qs=4),
         rapid("pure", "TestC14InvalidInit", 16000, 1600000, qs=4, replay="TestC14InvalidInitReplay"),
+    ]),
+    "C15": dict(tests=[
+        rapid("pure", "TestC15Eval", 40000, 4000000, qs=8, replay="TestC15EvalReplay"),
+        fuzz("pure", "FuzzC15Parser", 120),
+    ]),
+    "C17": dict(tests=[
+        rapid("pure", "TestC17", 32000, 3200000, qs=8),
     ]),
     "C18": dict(tests=[
         rapid("storeprops", "TestC18Outputs", 8000, 800000, qs=4, replay="TestC18OutputsReplay"),
